@@ -49,6 +49,7 @@ class Sim:
         self.cb = _Th("cb")
         self.current = self.main
         self.cb_thread = None
+        self.main_thread_obj = threading.current_thread()
         self.cb_busy = False             # a completion (task run + callback) is in progress
         self.pending = []                # submitted, not yet completed: (seq, runner)
         self.n_submitted = 0
@@ -450,3 +451,77 @@ class SimExecutor:
 
     def shutdown(self, wait=True, kill_workers=False):
         self.terminate(kill_workers)
+
+
+# ---------------------------------------------------------------------- statement-level switch points
+CURRENT = [None]        # the simulation statement probes report to
+
+
+def stmt_probe(tag):
+    sim = CURRENT[0]
+    if sim is not None and not sim.stopping and threading.current_thread() in (sim.cb_thread, sim.main_thread_obj):
+        sim.sp(tag)
+
+
+def instrumented_parallel_module(methods=None):
+    """Recompile /repo's joblib/parallel.py *from its current source* with a switch point before every statement of
+    the Parallel / BatchCompletionCallBack methods that touch shared state.  Returns a module object; the caller swaps
+    it in for joblib.parallel for the duration of a run.  Bytecode-level switches stay outside (CPython switches
+    threads between bytecodes, but every shared-state access of these methods is a statement of its own)."""
+    import ast
+    import sys
+    import types
+    import joblib.parallel as real
+    methods = methods or {"__call__", "_get_outputs", "_start", "dispatch_one_batch", "_dispatch", "_register_new_job",
+                          "dispatch_next", "_retrieve", "_wait_retrieval", "_raise_error_fast", "_abort",
+                          "_terminate_and_reset", "_reset_run_tracking", "_dispatch_new", "_retrieve_result",
+                          "_register_outcome", "get_result", "get_status", "_return_or_raise", "__exit__"}
+    src = open(real.__file__).read()
+    tree = ast.parse(src)
+
+    class Ins(ast.NodeTransformer):
+        def __init__(self):
+            self.active = False
+
+        def visit_FunctionDef(self, node):
+            was = self.active
+            self.active = node.name in methods
+            node = self.generic_visit(node)
+            if self.active:
+                node.body = self._weave(node.body)
+            self.active = was
+            return node
+
+        def _weave(self, body):
+            out = []
+            for st in body:
+                if not (isinstance(st, ast.Expr) and isinstance(st.value, ast.Constant) and isinstance(st.value.value, str)):
+                    probe = ast.Expr(ast.Call(ast.Name("__parsim_probe__", ast.Load()),
+                                              [ast.Constant("L%d" % st.lineno)], []))
+                    out.append(ast.copy_location(probe, st))
+                for field in ("body", "orelse", "finalbody"):
+                    sub = getattr(st, field, None)
+                    if isinstance(sub, list) and sub and isinstance(sub[0], ast.stmt) and not isinstance(st, (ast.FunctionDef, ast.ClassDef)):
+                        setattr(st, field, self._weave(sub))
+                if isinstance(st, ast.Try):
+                    for h in st.handlers:
+                        h.body = self._weave(h.body)
+                out.append(st)
+            return out
+    tree = Ins().visit(tree)
+    ast.fix_missing_locations(tree)
+    mod = types.ModuleType("joblib.parallel")
+    mod.__file__ = real.__file__
+    mod.__package__ = "joblib"
+    mod.__dict__["__parsim_probe__"] = stmt_probe
+    code = compile(tree, real.__file__, "exec")
+    saved = sys.modules["joblib.parallel"]
+    sys.modules["joblib.parallel"] = mod
+    try:
+        exec(code, mod.__dict__)
+    finally:
+        sys.modules["joblib.parallel"] = saved
+    # share the thread-local configuration store and the backend registry with the real module
+    mod._backend = real._backend
+    mod.BACKENDS = real.BACKENDS
+    return mod
